@@ -26,6 +26,16 @@ theorem tie_close_releases_all (k : Kind) (a b : Int) (s s' : CS) (w : Tid) (as 
     ∀ t, (t ∈ tids s.parked ∨ t ∈ tids s.woken) → t ∈ tids s'.done :=
   close_releases_all (genPar k) (tie_wake_proved k) a b s s' w as hr hrun hq
 
+theorem tie_conservation (k : Kind) (a b : Int) (s : CS) (hr : (ltsC (genPar k) ((genPar k).newQ a b)).Reach s) :
+    (vals s.done ++ (s.q.ctrl ++ s.q.req)).Perm s.accepted :=
+  conc_conservation_perm (genPar k) a b s hr
+
+theorem tie_k_items_k_consumers (k : Kind) (a b : Int) (s : CS) (hr : (ltsC (genPar k) ((genPar k).newQ a b)).Reach s)
+    (hq : s.woken = []) (ho : s.q.closed = false) (hk : s.accepted.length = s.parked.length + s.done.length) :
+    s.parked = [] ∧ s.q.ctrl = [] ∧ s.q.req = [] ∧ (∀ d ∈ s.done, ∃ v, d.2 = .val v) ∧
+    (vals s.done).Perm s.accepted ∧ (s.accepted.Nodup → (vals s.done).Nodup) :=
+  k_items_k_consumers_exact (genPar k) (tie_wake_proved k) a b s hr hq ho hk
+
 theorem tie_priq_waitch_readable (cap : Int) (s : PS)
     (hr : (plts Nv.Gen.C12.cfg.priq Nv.Gen.C13.cfg.priq cap).Reach s) (hne : s.q.entries ≠ [])
     (h1 : s.pushGap = 0) (h2 : s.popGap = 0) (h3 : s.holders = 0) : s.token = true :=
